@@ -220,6 +220,14 @@ func (ut UnitType) findByAlias(alias string) *Unit {
 // sniffUnit simpifies the input alias and returns the unit associated with the
 // specified alias. It returns nil if the unit with such alias is not found.
 func (ut UnitType) sniffUnit(unit string) *Unit {
+	// Canonical names are what Scale returns as the chosen unit and are fed
+	// back as the target unit by reports. Some of them are not among the
+	// aliases, and differ only by case from one another (m*GCU, M*GCU).
+	for i := range ut.Units {
+		if ut.Units[i].CanonicalName == unit {
+			return &ut.Units[i]
+		}
+	}
 	unit = strings.ToLower(unit)
 	if u := ut.findByAlias(unit); u != nil {
 		return u
